@@ -125,6 +125,29 @@ class Unit:
         rc, out, t = run([exe, str(h)] + [str(x) for x in inputs], timeout=60)
         return rc, out
 
+    def run_native_msan(s, h, inputs):
+        """counterexamples that depend on an indeterminate value (LLVM undef, modelled as nondet by ll2c) do not replay on an
+        ordinary build: they are replayed on a MemorySanitizer build of the real C++ TU, which reports the use of the
+        uninitialised value itself"""
+        exe = os.path.join(s.dir, 'real_msan')
+        if not os.path.exists(exe):
+            objs = []
+            for pt in s.parts:
+                o = s.dir + '/tu%s_msan.o' % pt['suf']
+                fl = list(pt['flags']) + (['-DVF_PFX=g%s' % pt['pfx'].rstrip('_')] if pt['pfx'] else [])
+                rc, out, t = run(['clang++-14', '-O1', '-g', '-fsanitize=memory', '-fno-omit-frame-pointer', '-c', pt['cpp'], '-o', o] + CXXFLAGS + fl + s.excflag())
+                if rc: raise VfError('clang++ msan failed:\n' + out[-2000:])
+                objs.append(o)
+            for k, src in enumerate([s.hc] + s.rt_files):
+                o = s.dir + '/h_msan%d.o' % k
+                rc, out, t = run(['clang-14', '-O1', '-g', '-fsanitize=memory', '-c', src, '-o', o, '-I' + VERIF + '/harness'])
+                if rc: raise VfError('clang msan harness failed:\n' + out[-2000:])
+                objs.append(o)
+            rc, out, t = run(['clang++-14', '-fsanitize=memory'] + objs + ['-o', exe])
+            if rc: raise VfError('link msan failed:\n' + out[-2000:])
+        rc, out, t = run([exe, str(h)] + [str(x) for x in inputs], timeout=60)
+        return rc, out
+
     def run_native(s, exe, h, inputs, printlog=False):
         env = dict(os.environ)
         if printlog: env['VF_PRINT'] = '1'
